@@ -386,6 +386,11 @@ class SymFloat(_Sym):
             return SymFloat(None, -self.special)
         raise Unsupported('neg of symbolic float')
 
+    def __float__(self):
+        if self.special is not None:
+            return self.special         # a wrapped concrete float: float(x) is that float
+        raise Unsupported('float() on %r' % (self,))
+
     def __repr__(self):
         return 'SymFloat(%s)' % (self.e if self.special is None else self.special,)
 
